@@ -280,11 +280,12 @@ class ScopeVariant(Variant):
     prop_ids = ("C08",)
     bounded = "arity"
 
-    def __init__(self, world, kind, k, outer):
-        self.world, self.kind, self.k, self.outer = world, kind, k, outer
+    def __init__(self, world, kind, k, outer, outer_defined=False):
+        self.world, self.kind, self.k, self.outer, self.outer_defined = world, kind, k, outer, outer_defined
         target = {"let": "_enter_let", "quantifier": "_enter_quantifier", "define-fun": "_cmd_define_fun"}[kind]
         self.qualname = PARSER + "." + target
-        self.name = "scope:%s[%d binders/outer-bound %s]" % (kind, k, format(outer, "0%db" % k))
+        # outer names are bound (let / quantifier / parameter of an enclosing scope) or DEFINED (define-fun without parameters)
+        self.name = "scope:%s[%d binders/outer-%s %s]" % (kind, k, "defined" if outer_defined else "bound", format(outer, "0%db" % k))
 
     def setup(self, ex):
         W = self.world
@@ -301,16 +302,19 @@ class ScopeVariant(Variant):
             ex.assume(z3.And(nm != z3.StringVal("("), nm != z3.StringVal(")")))
         # enclosing scope: some binder names and the probe name are bound there
         self.outerv = {}
-        keys = []
+        keys, defs = [], []
         for i, nm in enumerate(self.names):
             if self.outer >> i & 1:
                 o = z3.Const("outer%d" % i, Node)
                 self.outerv[i] = o
-                keys.append((nm, [o]))
+                if self.outer_defined:
+                    defs.append((nm, ([], o)))
+                else:
+                    keys.append((nm, [o]))
         self.probev = z3.Const("outer_other", Node)
         keys.append((self.probe, [self.probev]))
         ex.ghost["existing_nodes"] = list(self.outerv.values()) + [self.probev]
-        self.cache = mk_cache(env, keys, [])
+        self.cache = mk_cache(env, keys, defs)
         self.parser = parser_obj(ex, W, env, self.cache)
         g = ex.ghost
         g["watch"] = list(allnames)
@@ -481,6 +485,8 @@ def variants(world, tier="quick", only=None):
         for k in (1, 2, 3):
             for outer in range(1 << k):
                 out.append(ScopeVariant(world, kind, k, outer))
+                if kind == "let" and outer:
+                    out.append(ScopeVariant(world, kind, k, outer, outer_defined=True))
     if only:
         out = [v for v in out if any(o in v.name for o in only)]
     return out
